@@ -7,7 +7,7 @@ EXTENDS Picture, Json, IOUtils
 In == ndJsonDeserialize(IOEnv.IN)
 Enc(c) ==
     IF "pic" \notin DOMAIN c THEN c
-    ELSE IF ~("opaque" \in DOMAIN c) /\ ~WellFormed(c.pic) THEN [illformed |-> TRUE] @@ c
+    ELSE IF ~("opaque" \in DOMAIN c) /\ ~WellFormed(Effective(c.pic)) THEN [illformed |-> TRUE] @@ c
     ELSE [bytes |-> BytesOfBits(PaddedBits(c.pic)), nbits |-> Len(PictureBits(c.pic))] @@ c
 VARIABLE n
 Init == n = 0
